@@ -48,7 +48,9 @@ var triggers = []trigger{
 		// survives: wrong results anywhere, hangs and out-of-range stores.
 		id: "KF-W1", props: wmProps,
 		match: func(c *core.Case, f *features, class string, v *core.Verdict) bool {
-			return c.Cfg.V == mach.MVP60 && c.Cfg.EU >= 2 && f.redirects >= 1
+			// with one execute unit older work is still in flight at a flush only
+			// behind write-bus back-pressure (a store keeps the write unit busy)
+			return c.Cfg.V == mach.MVP60 && (c.Cfg.EU >= 2 || f.stores >= 1) && f.redirects >= 1
 		},
 	},
 	{
